@@ -845,7 +845,7 @@ func main() {
 	wg.Wait()
 	hwoptResults := hwOptCheck(run, table)
 	run.Set("rom_data_programs", romDataCheck(run))
-	allClosed := true
+	allClosed, anyCapped := true, false
 	var per []map[string]any
 	notSim := 0
 	for _, r := range results {
@@ -858,6 +858,9 @@ func main() {
 		}
 		if !r.closed {
 			allClosed = false
+		}
+		if r.capped {
+			anyCapped = true
 		}
 		per = append(per, map[string]any{"config": r.cfg.Name, "states": r.states, "transitions": r.transitions, "alphabet": r.letters,
 			"depth": r.depth, "closed": r.closed, "cap_hit": r.capped, "not_simulable": r.notSimulable != ""})
@@ -879,7 +882,9 @@ func main() {
 	run.Set("configurations", per)
 	run.Set("configurations_not_simulable", notSim)
 	run.Set("hw_optimisation_programs", hwoptResults)
-	run.Set("exhaustive", true)
+	// exhaustive = no configuration was cut by the state cap or the wall-clock budget (depth-bounded configurations are
+	// complete within their declared depth)
+	run.Set("exhaustive", !anyCapped)
 	run.Set("all_closed", allClosed)
 	run.Set("coimplemented_table", table)
 	run.Sample("transition = (reachable product state, instruction word from Σ, input vector): e.g. state after `rset r0 255; inc r0` then word `add r0 r1`")
